@@ -196,3 +196,22 @@ func FindBytesInTx(tx *bbolt.Tx, needle []byte) []string {
 	})
 	return hits
 }
+
+// DropEmptyEntityBuckets removes from a dump the empty buckets that live inside an entity bucket
+// (root/<store>/<id>/<field>/): link and back-reference containers are created lazily, even by reads inside a
+// write transaction, and an empty one carries no information. Empty buckets under root/indexes are kept: an empty
+// index key is an inconsistency in its own right.
+func DropEmptyEntityBuckets(lines []string) []string {
+	var out []string
+	for i, l := range lines {
+		if strings.HasSuffix(l, "/") {
+			empty := i+1 >= len(lines) || !strings.HasPrefix(lines[i+1], l)
+			depth := strings.Count(l, "/\"")
+			if empty && depth >= 4 && !strings.HasPrefix(l, "/\"root\"/\"indexes\"") {
+				continue
+			}
+		}
+		out = append(out, l)
+	}
+	return out
+}
